@@ -90,6 +90,14 @@ theorem crc_check_add (d : List (BitVec 8)) :
     checkCrcA (addCrcA d) = .ok true ∧ checkCrcB (addCrcB d) = .ok true := by
   simp [checkCrcA, addCrcA, checkCrcB, addCrcB]
 
+/-- **Every single-bit error is detected.** Flipping any one bit of a frame the driver produced
+(any octet of the message of any length, or either CRC octet) makes the driver's check fail -
+for CRC_A and CRC_B. (From GF(2)-linearity of the register update and injectivity of the
+zero-input step; no enumeration.) -/
+theorem crc_detects_single_bit (d : List (BitVec 8)) (i : Nat) (b : Fin 8) (h : i < d.length + 2) :
+    checkCrcA (flipBit (addCrcA d) i b) = .ok false ∧ checkCrcB (flipBit (addCrcB d) i b) = .ok false :=
+  ⟨checkA_flip d i b h, checkB_flip d i b h⟩
+
 /-! Non-vacuity: concrete instances satisfying the hypotheses. -/
 example : Spec.parse (pnBuild 0 [0x31, 0x32, 0x33]) = some (0xD4, 0, [0x31, 0x32, 0x33]) := by decide
 example : pnAccept 0 [0, 0, 0xFF, 5, 0xFB, 0xD5, 1, 0x34, 0x35, 0x36, 0x8B, 0] = .ok [0x34, 0x35, 0x36] := by decide
@@ -98,6 +106,7 @@ example : pnAccept 0 [0, 0, 0xFF, 1, 0xFF, 0x7F, 0x81, 0] = .error (.chipsetErro
 /-- the response that was accepted before the repair (DCS one too small, postamble 01) -/
 example : pnAccept 0 [0, 0, 0xFF, 5, 0xFB, 0xD5, 1, 0x34, 0x35, 0x36, 0x8A, 1] = .error (.io 5) := by decide
 example : acrAccept 0 [0x80, 5, 0, 0, 0, 0, 0, 0, 0, 0, 0xD5, 1, 0x77, 0x90, 0] = .ok [0x77] := by decide
+example : checkCrcA (flipBit (addCrcA [0x12, 0x34]) 1 3) = .ok false := by decide +kernel
 example : addCrcA [0x00, 0x00] = [0x00, 0x00, 0xA0, 0x1E] := by decide +kernel  -- ISO/IEC 14443-3 Annex B example
 example : addCrcA [0x12, 0x34] = [0x12, 0x34, 0x26, 0xCF] := by decide +kernel  -- ISO/IEC 14443-3 Annex B example
 example : addCrcB [0x00, 0x00, 0x00] = [0x00, 0x00, 0x00, 0xCC, 0xC6] := by decide +kernel  -- Annex B example
